@@ -16,7 +16,7 @@ L = env.lib()
 
 ID = "C17"
 LEVEL = "exploration"
-RULE = ("Hypothesis-generated (key, token list): keys are (a) fresh keygen() pairs on fresh paths or written over the previous pair at one reused path, and (b) seeded 2048-bit keys built from a drawn seed (deterministic Miller-Rabin prime search, "
+RULE = ("Hypothesis-generated (key, token list): keys are (a) fresh keygen() pairs on fresh paths or written over the previous pair at one reused path, under file names with dots/spaces (optionally next to a different key pair named without the last extension), with extra signer objects created and discarded before signing, and (b) seeded 2048-bit keys built from a drawn seed (deterministic Miller-Rabin prime search, "
         "PKCS#8 PEM written to disk, write_public_keyfile), also with public exponent 3 and 65537; tokens: all-zero, all-0xFF, drawn 20-byte strings. Oracle: .pub == base64(524-byte blob) + ' user@host'; "
         "blob: 64 words, n*n0inv == -1 mod 2^32, little-endian modulus == n, rr == 2^4096 mod n, exponent == e (all recomputed with Python integers); for each of the three signer classes loaded from the "
         "files, Sign(token) == the unique RSASSA-PKCS1-v1_5 signature of the token taken as a SHA-1 digest (pow(EM,d,n), own EMSA encoding) and cryptography's verify(..., Prehashed(SHA1)) accepts it. "
@@ -92,6 +92,9 @@ def cases():
         "e": st.sampled_from([65537, 65537, 3, 17]),
         "tokens": st.lists(tok, min_size=6, max_size=20),
         "reuse_path": st.booleans(),      # write the key pair over the previous pair at one fixed path ("existing files will be overwritten")
+        "name": st.sampled_from(["adbkey", "adbkey", "adbkey.new", "192.168.1.5", "key.v2.pem", "my key"]),      # key file names (dots and spaces are ordinary characters)
+        "decoy": st.booleans(),           # another, different key pair sits next to it under the name without the last extension
+        "drop_temp_signers": st.booleans(),   # a second signer object of each class is created and discarded before signing
     })
 
 
@@ -105,12 +108,15 @@ def check_case(case):
     d = tempfile.mkdtemp(prefix="advf-c17-")
     info = {"classes": [case["kind"]]}
     try:
-        path = os.path.join(d, "adbkey")
+        path = os.path.join(d, case.get("name", "adbkey"))
+        if case.get("decoy") and "." in case.get("name", ""):
+            stem = os.path.join(d, os.path.splitext(case["name"])[0])
+            kg.keygen(stem)          # e.g. an old `adbkey` next to the rotated `adbkey.new`
         if case.get("reuse_path"):
             base = _REUSED[0] if _REUSED else d           # run() creates (and removes) the shared base directory
             rd = os.path.join(base, "pid-%d" % os.getpid())
             os.makedirs(rd, exist_ok=True)
-            path = os.path.join(rd, "adbkey")
+            path = os.path.join(rd, case.get("name", "adbkey"))
             info["classes"].append("path-reused")
         if case.get("pem"):
             with open(path, "wb") as f:
@@ -159,7 +165,15 @@ def check_case(case):
             return fail("blob-rr", "rr != 2^4096 mod n")
         if f_["e"] != e:
             return fail("blob-exponent", "%d != %d" % (f_["e"], e))
-        signers = [("PythonRSASigner", PythonRSASigner.FromRSAKeyPath(path)), ("CryptographySigner", CryptographySigner(path)), ("PycryptodomeAuthSigner", PycryptodomeAuthSigner(path))]
+        try:
+            signers = [("PythonRSASigner", PythonRSASigner.FromRSAKeyPath(path)), ("CryptographySigner", CryptographySigner(path)), ("PycryptodomeAuthSigner", PycryptodomeAuthSigner(path))]
+            if case.get("drop_temp_signers"):
+                import gc
+                temps = [PythonRSASigner.FromRSAKeyPath(path), CryptographySigner(path), PycryptodomeAuthSigner(path)]
+                del temps
+                gc.collect()
+        except Exception as ex:  # noqa
+            return fail("signer-load-failed", "loading the signers from %r failed: %s: %s" % (os.path.basename(path), type(ex).__name__, ex))
         for name, s in signers:
             pk = s.GetPublicKey()
             pk = pk.encode() if isinstance(pk, str) else pk
